@@ -485,6 +485,7 @@ class XDoc:
         self.psd = psd
         self.depth = psd.depth
         self.flt = layer_filter or Layer.is_visible
+        self.custom_filter = layer_filter is not None and layer_filter is not Layer.is_visible
         self.check_scope = check_scope
         from psd_tools.api.numpy_io import EXPECTED_CHANNELS
         self.nch = EXPECTED_CHANNELS[psd.color_mode]
@@ -551,6 +552,13 @@ class XDoc:
             n.kind = "G"
             n.passthrough = layer.blend_mode == BlendMode.PASS_THROUGH
             n.children = [self.node(c) for c in layer]
+            if self.custom_filter and layer.kind != "artboard":
+                # with a filter of its own the compositor lets a group span the children that filter accepts
+                # (the cached Group.bbox spans the visible ones)
+                boxes = [c.bbox for c in n.children if c.pre[0] == "1" and c.bbox != (0, 0, 0, 0)]
+                n.bbox = (min(b[0] for b in boxes), min(b[1] for b in boxes), max(b[2] for b in boxes),
+                          max(b[3] for b in boxes)) if boxes else (0, 0, 0, 0)
+                n.pre[1:5] = map(str, n.bbox)
         else:
             n.kind = "L"
             n.color = layer.numpy("color")
